@@ -211,7 +211,15 @@ def apply_op(E, op, units, streams):
             if any(s is c for c in chosen):
                 raise pre('duplicate in slice')
             chosen.append(s)
-        lst[:] = chosen
+        lo, hi = E.pick([(None, None), (1, None), (None, 1)], 'slice-bounds')
+        if (lo, hi) != (None, None):
+            cur = list(lst)
+            kept = cur[:lo] if hi is None else cur[hi:]
+            if any(s is c for s in chosen for c in kept):
+                raise pre('stream already in the same port list outside the slice')
+            if fixed and len(kept) + len(chosen) > cap:
+                raise pre('more streams than a fixed-size list holds')
+        lst[lo:hi] = chosen
     elif op in ('append-in', 'append-out', 'insert-in'):
         side_in = op != 'append-out'
         fixed = u._ins_size_is_fixed if side_in else u._outs_size_is_fixed
